@@ -259,6 +259,15 @@ def alphabet():
     def ssm_dump(m):
         return [canon(m.A), canon(m.B), canon(m.C), canon(m.D), list(m.sources)]
     A["nodal_ssm_shared_dicts"] = lambda P: ssm_dump(nodal_state_space_model(P["netD"], c_values=P["c_values"], l_values=P["l_values"]))
+    def ssm_second_answers(P):
+        m = nodal_state_space_model(P["netD"], c_values=P["c_values"], l_values=P["l_values"])
+        first = [list(m.sources), canon(m.c_row_current("R")), canon(m.d_row_current("Vs")), canon(m.d_row_for_potential("2"))]
+        second = [list(m.sources), canon(m.c_row_current("R")), canon(m.d_row_current("Vs")), canon(m.d_row_for_potential("2"))]
+        if first != second:
+            # (an operation that raises in isolation is reported by the one-step stage)
+            raise AssertionError("the same model object answers differently the second time: %r then %r" % (first, second))
+        return first
+    A["nodal_ssm_asked_twice"] = ssm_second_answers
     A["nodal_ssm_defaults"] = lambda P: ssm_dump(nodal_state_space_model(P["net2"]))
     A["circuit_ssm"] = lambda P: [canon(getattr(cssm.state_space_model(P["tcirc"], potential_nodes=P["nodes"], voltage_ids=P["ids"], current_ids=P["ids"]), k)) for k in "ABCD"]
     A["circuit_ssm_twin"] = lambda P: [canon(getattr(cssm.state_space_model(P["tcirc2"], potential_nodes=P["nodes"], voltage_ids=P["ids"], current_ids=P["ids"]), k)) for k in "ABCD"]
